@@ -28,7 +28,8 @@ from vlib.gen import POOL, make_tensor
 
 FILES = ["adcgen/func.py", "adcgen/rules.py", "adcgen/sympy_objects.py"]
 TIMEOUT = 20000
-NAMES = {"o": ["i", "j", "k", "l"], "v": ["a", "b", "c", "d"], "g": ["p", "q", "r", "s"]}
+NAMES = {"o": ["i", "j", "k", "l", "m", "n"], "v": ["a", "b", "c", "d", "e", "f"],
+         "g": ["p", "q", "r", "s", "t", "u"]}
 
 
 def _sym(n):
@@ -179,7 +180,7 @@ def canon_spec(spec):
     ren, cnt = {}, {"o": 0, "v": 0, "g": 0}
     out = []
     for k, n in ops:
-        sp = "o" if n[0] in "ijkl" else ("v" if n[0] in "abcd" else "g")
+        sp = "o" if n[0] in "ijklmn" else ("v" if n[0] in "abcdef" else "g")
         if n not in ren:
             ren[n] = NAMES[sp][cnt[sp]]
             cnt[sp] += 1
@@ -217,6 +218,44 @@ def gen_strings(rng, length, n, exhaustive=False, with_no=0.5):
             continue
         seen.add(spec)
         out.append(spec)
+    return out
+
+
+def gen_balanced(rng, n, max_len=8):
+    """Strings made of number-conserving blocks (excitation, de-excitation, one- and
+    two-particle operator blocks over occupied / virtual / general indices), each block
+    bare or normal ordered: most of them have a non-vanishing expectation value, and several
+    general-index operators inside normal-ordered groups occur together."""
+    blocks = {"X": "+v-o", "D": "+o-v", "G1": "+g-g", "G2": "+g+g-g-g", "O": "+o-o", "V": "+v-v",
+              "XG": "+g-o", "DG": "+o-g"}
+    seen, out, tries = set(), [], 0
+    while len(out) < n and tries < n * 60:
+        tries += 1
+        kinds = [rng.choice(list(blocks)) for _ in range(rng.randint(2, 4))]
+        if rng.random() < 0.5:
+            kinds = ["D"] + kinds[:2] + ["X"]
+        ops, groups, used = [], [], {"o": 0, "v": 0, "g": 0}
+        for kd in kinds:
+            pat = blocks[kd]
+            start = len(ops)
+            for q in range(0, len(pat), 2):
+                sp = pat[q + 1]
+                if used[sp] and rng.random() < 0.15:
+                    nm = NAMES[sp][rng.randrange(used[sp])]
+                else:
+                    if used[sp] >= len(NAMES[sp]):
+                        break
+                    nm = NAMES[sp][used[sp]]
+                    used[sp] += 1
+                ops.append((pat[q], nm))
+            if rng.random() < 0.6 and len(ops) - start >= 2:
+                groups.append((start, len(ops)))
+        if not 2 <= len(ops) <= max_len:
+            continue
+        spec = canon_spec((tuple(ops), tuple(groups)))
+        if spec not in seen:
+            seen.add(spec)
+            out.append(spec)
     return out
 
 
@@ -383,6 +422,7 @@ def main():
         specs += gen_strings(rng, 4, 120, with_no=1.0)
         specs += gen_strings(rng, 6, 60, with_no=0.4)
         specs += gen_strings(rng, 3, 20, with_no=0.3)
+        specs += gen_balanced(rng, 80)
     else:
         specs += gen_strings(rng, 4, 0, exhaustive=True)
         specs += gen_strings(rng, 4, 1500, with_no=1.0)
@@ -390,6 +430,7 @@ def main():
         specs += gen_strings(rng, 8, 300, with_no=0.4)
         specs += gen_strings(rng, 3, 100, with_no=0.3)
         specs += gen_strings(rng, 5, 100, with_no=0.3)
+        specs += gen_balanced(rng, 2500)
     mt = (2, 2) if quick else (3, 3)
     items = [(sp, mt if len(sp[0]) <= 6 else (2, 2)) for sp in specs]
     results = pmap(run_pointwise, items, limit=300, chunksize=4)
